@@ -1,30 +1,51 @@
 ---------------------------- MODULE MCModelStore ----------------------------
 (***************************************************************************)
 (* T1 for C23: the call layer of ModelStore keeps the declarative          *)
-(* invariant.  TLC explores every history of at most MaxOps calls drawn    *)
-(* from the menu (targets x MCVals x storing calls) and checks             *)
-(*   Stored            StoreOK in every reachable model (value level)      *)
+(* invariant.                                                              *)
+(*  HSpec   every history of ModelStoreMenu!Histories (the full cross      *)
+(*          product call x target type x value that is also replayed on    *)
+(*          the library) is run through the call layer, both branches      *)
+(*          where the verdict is unspecified.                              *)
+(*  MCSpec  free interleavings: every history of at most MaxOps calls      *)
+(*          drawn from a menu (targets x MCVals x storing calls).          *)
+(* Checked in every reachable model:                                       *)
+(*   Stored            StoreOK (value level)                               *)
 (*   RejectJustified   a call the guard rejects would break StoreOK        *)
 (*   AcceptSafe        a call the guard accepts keeps StoreOK              *)
 (*   RejectUnchanged   a rejected call leaves the model unchanged          *)
 (***************************************************************************)
 EXTENDS ModelStoreMenu
 CONSTANTS MaxOps, MCValNames
-VARIABLE n
-MCVals == {e \in Vals : (IF e.op = "const" THEN (IF e.v.k = "b" THEN "true" ELSE ToString(e.v.n) \o "/" \o ToString(e.v.d)) ELSE e.name) \in MCValNames}
-Menu ==
+VARIABLES n, h
+mcvars == <<vars, n, h>>
+
+Justified(s) == (Enabled(m, s) /\ Verdict(m, s) = "no")  => ~StoreOK(Apply(m, s))
+Safe(s)      == (Enabled(m, s) /\ Verdict(m, s) = "yes") => StoreOK(Apply(m, s))
+
+\* ---------- the histories of the case space ----------
+HInit == Init /\ n = 0 /\ h \in Histories
+HNext == /\ n < Len(h.steps) /\ n' = n + 1 /\ h' = h
+         /\ LET s == h.steps[n + 1] IN Accepts(s) \/ Rejects(s)
+HSpec == HInit /\ [][HNext]_mcvars
+HRejectJustified == n < Len(h.steps) => Justified(h.steps[n + 1])
+HAcceptSafe      == n < Len(h.steps) => Safe(h.steps[n + 1])
+\* every call of a history is enabled as long as the problem exists (vacuity guard)
+HEnabled == (n < Len(h.steps) /\ (n = 0 \/ m.has \/ h.steps[1].op # "new_problem")) => Enabled(m, h.steps[n + 1])
+
+\* ---------- free interleavings over a menu ----------
+Label(e) == IF e.op = "const" THEN (IF e.v.k = "b" THEN "true" ELSE ToString(e.v.n) \o "/" \o ToString(e.v.d)) ELSE e.name
+MCVals == TLCEval({e \in Vals : Label(e) \in MCValNames})
+Menu == TLCEval(
    {NewProblem(TNone, ENone)} \cup {NewProblem(TypeByName(t), e) : t \in Targets, e \in MCVals}
    \cup {AddFluent(F(t), e) : t \in Targets, e \in MCVals \cup {ENone}}
    \cup {SetInit(F(t), e) : t \in Targets, e \in MCVals}
    \cup {AddEffect(c, k, F(t), e) : c \in Conts, k \in Kinds, t \in Targets, e \in MCVals}
-   \cup {Instance(TypeByName(t), e) : t \in Targets, e \in MCVals}
-MCInit == Init /\ n = 0
-MCNext == /\ n < MaxOps /\ n' = n + 1
+   \cup {Instance(TypeByName(t), e) : t \in Targets, e \in MCVals})
+NoHist == H("", "", 0, <<>>)
+MCInit == Init /\ n = 0 /\ h = NoHist
+MCNext == /\ n < MaxOps /\ n' = n + 1 /\ h' = h
           /\ \E s \in Menu : Accepts(s) \/ Rejects(s)
-MCSpec == MCInit /\ [][MCNext]_<<vars, n>>
-RejectJustified == \A s \in Menu : (Enabled(m, s) /\ Verdict(m, s) = "no") => ~StoreOK(Apply(m, s))
-AcceptSafe      == \A s \in Menu : (Enabled(m, s) /\ Verdict(m, s) = "yes") => StoreOK(Apply(m, s))
-\* the menu reaches every verdict of every call (vacuity guard, reported by PrintT)
-VerdictsReached == {<<s.op, Verdict(Apply(Empty, NewProblem(TNone, ENone)), s)>> : s \in {x \in Menu : x.op # "new_problem"}}
-ASSUME \A x \in VerdictsReached : PrintT(<<"VR", x[1], x[2]>>)
+MCSpec == MCInit /\ [][MCNext]_mcvars
+RejectJustified == n < MaxOps => \A s \in Menu : Justified(s)
+AcceptSafe      == n < MaxOps => \A s \in Menu : Safe(s)
 =============================================================================
